@@ -56,10 +56,13 @@ def verify_one(args):
             return out
         obs = [o for o in ex.obligations if obligation_belongs(o.name, prop)]
         known = load_known()
+        inc = solve.Incremental(ex)
+        lo = (len(obs) * chunk) // nchunks
+        hi = (len(obs) * (chunk + 1)) // nchunks
         for obi, ob in enumerate(obs):
-            if obi % nchunks != chunk:
+            if not (lo <= obi < hi):
                 continue
-            r = solve.check(ex.assumes[:ob.n_assumes], ob.guard, ob.cond, ob.name, ob.info)
+            r = inc.check(ob)
             rec = {'name': ob.name, 'status': r.status, 'backend': r.backend, 'seconds': round(r.seconds, 4),
                    'info': ob.info, 'reason': r.reason}
             if r.status == 'sat':
@@ -82,8 +85,7 @@ def verify_one(args):
                 if rec['status'] == 'sat':
                     rec['replay'] = replay.make_replay(ex, c, ob, r, prop)
             out['obligations'].append(rec)
-        vac = solve.vacuity(ex)
-        out['vacuity'] = vac
+        out['vacuity'] = solve.vacuity(ex) if chunk == nchunks - 1 else []
         out['inlined'] = sorted(ex.used_inline)
         out['callee_contracts'] = sorted(ex.used_contracts)
         out['trusted'] = sorted(ex.trusted)
